@@ -433,9 +433,17 @@ def _passed_unborrowed(ctx, unit, cfg, name: str) -> None:
         for f in fv:
             if f[0] == "libfn":
                 t = ctx.pkg.lib_unit(f[1])
-                if (t is not None and t.kind in ("asyncgen", "coroutine")) or ctx.pkg.lib_class(f[1]) is not None:
-                    if not f[1].endswith((".borrow", ".anext")):
-                        owning = True
+                if t is not None and t.kind in ("asyncgen", "coroutine") and not f[1].endswith((".borrow", ".anext")):
+                    # the callee takes ownership only of what it declares as an (any-)iterable it will
+                    # close; a parameter typed as a plain AsyncIterator is advanced, not owned
+                    from asl.values import roles_of_annotation
+                    ps = t.params()
+                    for i, a in enumerate(call.args):  # type: ignore[union-attr]
+                        if isinstance(a, ast.Name) and a.id == name and i < len(ps) \
+                                and "ITERABLE" in roles_of_annotation(ps[i].annotation):
+                            owning = True
+                elif ctx.pkg.lib_class(f[1]) is not None:
+                    owning = True
         if not owning:
             continue
         ctx.count("unborrowed_handovers")
